@@ -217,6 +217,36 @@ func (t *FromFile[K, C]) yieldFromNode(node pdf.Dict, seen map[pdf.Reference]boo
 }
 
 func (t *FromFile[K, C]) Embed(rm *pdf.EmbedHelper) (pdf.Native, error) {
-	ref, err := Write[K, C](rm.Out(), t.All())
+	entries := t.All()
+	var copyErr error
+	if t != nil && !t.readsFrom(rm.Out()) {
+		// The values belong to the file t reads from.  References inside
+		// them must be translated to the target file.
+		cp := rm.CopierFrom(t.cur.Extractor())
+		opt := rm.Out().GetOptions()
+		entries = func(yield func(K, pdf.Object) bool) {
+			for k, v := range t.All() {
+				if v != nil {
+					v, copyErr = cp.Copy(v.AsPDF(opt))
+					if copyErr != nil {
+						return
+					}
+				}
+				if !yield(k, v) {
+					return
+				}
+			}
+		}
+	}
+	ref, err := Write[K, C](rm.Out(), entries)
+	if copyErr != nil {
+		return nil, copyErr
+	}
 	return ref, err
+}
+
+// readsFrom reports whether the tree is read from the file w is writing.
+func (t *FromFile[K, C]) readsFrom(w *pdf.Writer) bool {
+	src, ok := t.cur.Getter().(*pdf.Writer)
+	return ok && src == w
 }
